@@ -133,10 +133,16 @@ def m_panic(ex, st, fr, path, args, m):
     raise Panic(f"panic: {path.split('::')[-1]} {msg}")
 
 
-@model(r"^(core|std)::fmt::Arguments::<?.*>?::new_(const|v1|v1_formatted)|^core::fmt::rt::Argument::<?.*>?::new_|^(alloc|std)::fmt::format$|^std::fmt::Arguments::|^core::fmt::rt::")
+@model(r"^((core|std)::fmt::)?Arguments::<.*>::new_(const|v1|v1_formatted)|^(core::fmt::rt::)?Argument::<.*>::new_|^std::fmt::Arguments::|^core::fmt::rt::")
 def m_fmt(ex, st, fr, path, args, m):
     # formatting is never the subject: an opaque token
     return Opaque("fmt")
+
+
+@model(r"^(alloc|std)::fmt::format$|^<(.*) as (?:std::string::)?ToString>::to_string$")
+def m_format(ex, st, fr, path, args, m):
+    # the text of messages / number renderings is not modelled: an opaque String of unknown content
+    return VecObj([], "u8", 0, is_str=True)
 
 
 @model(r"^log::|^(std::io::_print|std::io::_eprint)$|__private_api|^log::__private")
@@ -598,6 +604,57 @@ def m_option(ex, st, fr, path, args, m):
     if op == "ok_or":
         return ok(o.fields[0]) if o.variant == "Some" else err(args[1])
     return NotImplemented
+
+
+@model(r"^(?:std::option::)?Option::<(.*)>::(map|and_then|map_or|unwrap_or_else|map_or_else|ok_or_else|filter|is_some_and|or_else)::<")
+def m_option_closure(ex, st, fr, path, args, m):
+    o = args[0]
+    op = m.group(2)
+    if not (isinstance(o, Agg) and o.name == "Option"):
+        return NotImplemented
+    if op == "map":
+        return NONE() if o.variant == "None" else some(ex.call_closure(st, fr, args[1], [o.fields[0]]))
+    if op == "and_then":
+        return NONE() if o.variant == "None" else ex.call_closure(st, fr, args[1], [o.fields[0]])
+    if op == "map_or":
+        return args[1] if o.variant == "None" else ex.call_closure(st, fr, args[2], [o.fields[0]])
+    if op == "map_or_else":
+        return ex.call_closure(st, fr, args[1], []) if o.variant == "None" else ex.call_closure(st, fr, args[2], [o.fields[0]])
+    if op == "unwrap_or_else":
+        return ex.call_closure(st, fr, args[1], []) if o.variant == "None" else o.fields[0]
+    if op == "ok_or_else":
+        return err(ex.call_closure(st, fr, args[1], [])) if o.variant == "None" else ok(o.fields[0])
+    if op == "or_else":
+        return ex.call_closure(st, fr, args[1], []) if o.variant == "None" else o
+    if op == "is_some_and":
+        if o.variant == "None":
+            return I("bool", 0)
+        return ex.call_closure(st, fr, args[1], [o.fields[0]])
+    return NotImplemented
+
+
+@model(r"^(?:std::result::)?Result::<(.*)>::(map|map_err|and_then|unwrap_or_else|or_else)::<")
+def m_result_closure(ex, st, fr, path, args, m):
+    o = args[0]
+    op = m.group(2)
+    if not (isinstance(o, Agg) and o.name == "Result"):
+        return NotImplemented
+    if op == "map":
+        return ok(ex.call_closure(st, fr, args[1], [o.fields[0]])) if o.variant == "Ok" else o
+    if op == "map_err":
+        return err(ex.call_closure(st, fr, args[1], [o.fields[0]])) if o.variant == "Err" else o
+    if op == "and_then":
+        return ex.call_closure(st, fr, args[1], [o.fields[0]]) if o.variant == "Ok" else o
+    if op == "unwrap_or_else":
+        return o.fields[0] if o.variant == "Ok" else ex.call_closure(st, fr, args[1], [o.fields[0]])
+    if op == "or_else":
+        return o if o.variant == "Ok" else ex.call_closure(st, fr, args[1], [o.fields[0]])
+    return NotImplemented
+
+
+@model(r"^(?:core::|std::)?hint::must_use::<|^must_use::<")
+def m_must_use(ex, st, fr, path, args, m):
+    return args[0]
 
 
 @model(r"^(?:std::result::)?Result::<(.*)>::(unwrap|expect|is_ok|is_err|ok|err|unwrap_or|as_ref)$")
